@@ -1,7 +1,7 @@
 (* Reasoning rules for the checked-access monad (C07).
 
    [inb n m]      : run on a frame of length n, m never yields OOB and keeps the length
-                    (n is the program's data_end - data; the rules for rd*/wr* demand off + w <= n,
+                    until it returns (n is the program's data_end - data; the rules for rd*/wr* demand off + w <= n,
                     which the proofs discharge with lia from the program's own `>? dl` tests).
    [pu f0 A m]    : started on f0 itself (or with A already established) m hands on / exits with f0
                     unchanged, unless A.  A is proved at the first store of every path.
@@ -40,12 +40,12 @@ Proof. change 15 with (N.ones 4) at 1. rewrite N.land_ones. pose proof (N.mod_lt
 (* ---- inb *)
 Definition inb {A} (n : N) (m : M A) : Prop :=
   forall f, flen f = n ->
-  match m f with OOB => False | Val _ f' => flen f' = n | Exit _ f' => flen f' = n end.
+  match m f with OOB => False | Val _ f' => flen f' = n | Exit _ _ => True end.
 
 Lemma inb_ret {A} n (a : A) : inb n (ret a).
 Proof. intros f H; exact H. Qed.
 Lemma inb_exit {A} n v : inb n (@exit A v).
-Proof. intros f H; exact H. Qed.
+Proof. intros f H; exact I. Qed.
 Lemma inb_bind {A B} n (m : M A) (k : A -> M B) :
   inb n m -> (forall a, inb n (k a)) -> inb n (bind m k).
 Proof.
@@ -189,7 +189,7 @@ Proof. intros H f Hf. specialize (H f Hf). unfold bind in *. destruct (m f); aut
 Lemma inb_bind_ret {A B} n (a : A) (k : A -> M B) : inb n (k a) -> inb n (bind (ret a) k).
 Proof. intros H f Hf. exact (H f Hf). Qed.
 Lemma inb_bind_exit {A B} n v (k : A -> M B) : inb n (bind (exit v) k).
-Proof. intros f Hf. exact Hf. Qed.
+Proof. intros f Hf. exact I. Qed.
 
 Lemma pu_bind_assoc {A B C} f0 Act (m : M A) (k : A -> M B) (k2 : B -> M C) :
   pu f0 Act (bind m (fun a => bind (k a) k2)) -> pu f0 Act (bind (bind m k) k2).
@@ -221,11 +221,16 @@ Ltac land_facts :=
   end.
 Ltac pkt_arith := land_facts; cbn [N.of_nat Pos.of_succ_nat Pos.succ length] in *; lia.
 
+(* hooks: program-specific lemmas for the fixpoints (loops) a program uses *)
+Ltac inb_extra := fail.
+Ltac pu_extra := fail.
+Ltac vd_extra := fail.
+
 (* ---- traversal for inb *)
 Ltac inb_step :=
   lazymatch goal with
   | |- inb _ (bind (bind _ _) _) => apply inb_bind_assoc
-  | |- inb _ (bind (ret _) _) => apply inb_bind_ret
+  | |- inb _ (bind (ret _) _) => apply inb_bind_ret; cbv beta match
   | |- inb _ (bind (exit _) _) => apply inb_bind_exit
   | |- inb _ (bind (rd8 _) _) => apply inb_bind; [apply inb_rd8; pkt_arith|intro; cbv beta]
   | |- inb _ (bind (rd16 _) _) => apply inb_bind; [apply inb_rd16; pkt_arith|intro; cbv beta]
@@ -249,6 +254,8 @@ Ltac inb_step :=
   | |- inb _ (rd_bytes _ _) => apply inb_rd_bytes; pkt_arith
   | |- inb _ (wr_bytes _ _) => apply inb_wr_bytes; pkt_arith
   | |- inb _ (wr_zero _ _) => apply inb_wr_zero; pkt_arith
+  | |- inb _ (bind _ _) => apply inb_bind; [inb_extra|intro; cbv beta]
+  | |- inb _ _ => inb_extra
   end.
 Ltac inb_go := repeat inb_step.
 
@@ -256,7 +263,7 @@ Ltac inb_go := repeat inb_step.
 Ltac pu_step :=
   lazymatch goal with
   | |- pu _ _ (bind (bind _ _) _) => apply pu_bind_assoc
-  | |- pu _ _ (bind (ret _) _) => apply pu_bind_ret
+  | |- pu _ _ (bind (ret _) _) => apply pu_bind_ret; cbv beta match
   | |- pu _ _ (bind (exit _) _) => apply pu_bind_exit
   | |- pu _ _ (bind (rd8 _) _) => apply pu_bind_rd8; intros ? ?; cbv beta
   | |- pu _ _ (bind (rd16 _) _) => apply pu_bind_rd16; intros ? ?; cbv beta
@@ -270,6 +277,8 @@ Ltac pu_step :=
   | |- pu _ _ (rd16 _) => apply pu_rd16
   | |- pu _ _ (rd32 _) => apply pu_rd32
   | |- pu _ _ (rd_bytes _ _) => apply pu_rd_bytes
+  | |- pu _ _ (bind _ _) => apply pu_bind; [pu_extra|intro; cbv beta]
+  | |- pu _ _ _ => pu_extra
   end.
 Ltac pu_go := repeat pu_step.
 
@@ -289,7 +298,7 @@ Definition vdr (S : N -> bool) (m : M N) : Prop :=
   forall f, match m f with Exit v _ => S v = true | Val v _ => S v = true | OOB => True end.
 
 Lemma vd_noexit {A} S (m : M A) : (forall f, match m f with Exit _ _ => False | _ => True end) -> vd S m.
-Proof. intros H f. specialize (H f). destruct (m f); auto. contradiction. Qed.
+Proof. intros H f. specialize (H f). destruct (m f); auto; try contradiction. Qed.
 Lemma vd_ret {A} S (a : A) : vd S (ret a). Proof. intro f; exact I. Qed.
 Lemma vd_exit {A} S v : S v = true -> vd S (@exit A v). Proof. intros H f; exact H. Qed.
 Lemma vd_rd8 S off : vd S (rd8 off). Proof. apply vd_noexit. intro f. unfold rd8. destruct (has_bytes _ f); exact I. Qed.
@@ -299,9 +308,9 @@ Lemma vd_wr8 S off v : vd S (wr8 off v). Proof. apply vd_noexit. intro f. unfold
 Lemma vd_wr16 S off v : vd S (wr16 off v). Proof. apply vd_noexit. intro f. unfold wr16. destruct (has_bytes _ f); exact I. Qed.
 Lemma vd_wr32 S off v : vd S (wr32 off v). Proof. apply vd_noexit. intro f. unfold wr32. destruct (has_bytes _ f); exact I. Qed.
 Lemma vd_bind {A B} S (m : M A) (k : A -> M B) : vd S m -> (forall a, vd S (k a)) -> vd S (bind m k).
-Proof. intros Hm Hk f. unfold bind. specialize (Hm f). destruct (m f) as [a g|v g|]; auto. apply Hk. Qed.
+Proof. intros Hm Hk f. unfold bind. specialize (Hm f). destruct (m f) as [a g|v g|]; auto; try apply Hk. Qed.
 Lemma vdr_bind {A} S (m : M A) (k : A -> M N) : vd S m -> (forall a, vdr S (k a)) -> vdr S (bind m k).
-Proof. intros Hm Hk f. unfold bind. specialize (Hm f). destruct (m f) as [a g|v g|]; auto. apply Hk. Qed.
+Proof. intros Hm Hk f. unfold bind. specialize (Hm f). destruct (m f) as [a g|v g|]; auto; try apply Hk. Qed.
 Lemma vdr_ret S v : S v = true -> vdr S (ret v). Proof. intros H f; exact H. Qed.
 Lemma vdr_exit S v : S v = true -> vdr S (exit v). Proof. intros H f; exact H. Qed.
 Lemma vd_rd_bytes S k off : vd S (rd_bytes k off).
@@ -336,11 +345,11 @@ Proof. intros H. specialize (H f). unfold run. destruct (m f); intros E; inversi
 
 Ltac vd_prim :=
   first [apply vd_rd8|apply vd_rd16|apply vd_rd32|apply vd_wr8|apply vd_wr16|apply vd_wr32
-        |apply vd_rd_bytes|apply vd_wr_bytes|apply vd_wr_zero].
+        |apply vd_rd_bytes|apply vd_wr_bytes|apply vd_wr_zero|vd_extra].
 Ltac vdr_step :=
   lazymatch goal with
   | |- vdr _ (bind (bind _ _) _) => apply vdr_bind_assoc
-  | |- vdr _ (bind (ret _) _) => apply vdr_bind_ret
+  | |- vdr _ (bind (ret _) _) => apply vdr_bind_ret; cbv beta match
   | |- vdr _ (bind (exit _) _) => apply vdr_bind_exit; reflexivity
   | |- vdr _ (bind (match ?c with _ => _ end) _) => destruct c
   | |- vdr _ (match ?c with _ => _ end) => destruct c
